@@ -109,14 +109,68 @@ KEY_POOL = ["Package", "Source", "Version", "Depends", "Description", "Maintaine
             '"dq"', "<lt>", "back\\slash", "^caret", "$dollar", "&amp", "(p)", "com,ma", "Comment", "`bt`", "0"]
 KEY_FIRST = [chr(c) for c in range(0x21, 0x7f) if chr(c) not in ":#-"]
 KEY_REST = [chr(c) for c in range(0x21, 0x7f) if chr(c) != ":"]
-MV_NAMES = {"files", "checksums-sha1", "checksums-sha256", "checksums-sha512"}
+# names that the subclasses (Dsc, Changes, BuildInfo, PdiffIndex, Release, Sources) turn into structured values
+MV_NAMES = {"files", "checksums-md5", "checksums-sha1", "checksums-sha256", "checksums-sha512", "md5sum", "sha1", "sha256",
+            "sha512"} | {p + h + s for p in ("", "x-unmerged-") for h in ("sha1-", "sha256-")
+                         for s in ("current", "download", "history", "patches")}
 DATA_POOL = ["1.0-1", "foo (>= 1.0), bar | baz", ":colon-first", "#hash-first", "-dash", "a: b: c", "x\ty",
              "\u00e9 \u00e0 \u0105 \u2026", "\u4e2d\u6587\u30c6\u30ad\u30b9\u30c8", "\U0001d518\U0001d52b\U0001d526",
              "-----BEGIN PGP SIGNATURE-----", "Key: value", ".", "=", "a  b", "\u05e9\u05dc\u05d5\u05dd", "0",
              "http://x.org/?a=b#c", "\u00e0\u00a0x", "\\n literal", "ends:", "#", ":", "::", "-----END PGP SIGNATURE-----",
-             "e\u0301 combining", "\U0001f600", "tab\tinside\tx", "Hash: SHA1", "x #not-a-comment", "~", "\u00df\u00a0\u00df"]
+             "e\u0301 combining", "\U0001f600", "tab\tinside\tx", "Hash: SHA1", "x #not-a-comment", "~", "\u00df\u00a0\u00df",
+             # character stress (notes/SIZE_STRESS.md part 2): not NFC/NFKC-stable text, case hazards, invisible
+             # characters, non-BMP, white-space look-alikes inside the token
+             "a\u030a e\u0301", "\u212b \u2126", "\uf9d0", "\ufb01n", "\uff21\uff42", "\u1100\u1161\u11a8", "\u0130stanbul \u0131",
+             "Ma\u00dfe \u017ft \u03c3\u03c2", "\U00010400\U00010428", "\ufeffBOM-first", "mid\ufeffdle", "zw\u200dj\u200cnj",
+             "soft\u00adhyphen", "\u200eltr\u200f \u202ertl", "\U0010ffff", "\u0301lone-mark", "nb\u00a0sp em\u2003sp id\u3000sp zw\u200bsp",
+             "\u1e9e \u01c5", "a\u0308\u0323", "\u0041\u030a"]
 ASCII_BODY = [chr(c) for c in range(0x21, 0x7f)] + [" ", " ", "\t"]
-UNI_BODY = list("\u00e9\u00e0\u0105\u2026\u4e2d\u00df\u0416\u03a9\u00a0\u3042") + ["\U0001f600"]
+UNI_BODY = list("\u00e9\u00e0\u0105\u2026\u4e2d\u00df\u0416\u03a9\u00a0\u3042\u0301\u00ad\u200b\u200d\u200f\ufeff\u2003\u3000"
+                "\u212b\u0130\u0131\u017f\ufb01") + ["\U0001f600", "\U0010ffff", "\U00010400"]
+# precomposed / decomposed (or otherwise normalisation-equivalent, case-related) twins: put into the SAME document as
+# different values -- a path that normalises or case-folds makes them collide
+TWINS = [("\u00e9", "e\u0301"), ("\u00e5", "a\u030a"), ("\u00c5", "\u212b"), ("\u03a9", "\u2126"), ("\u985e", "\uf9d0"),
+         ("fi", "\ufb01"), ("A", "\uff21"), ("\uac00", "\u1100\u1161"), ("ss", "\u00df"), ("i\u0307", "\u0130"), ("i", "\u0131"),
+         ("s", "\u017f"), ("\u03c3", "\u03c2"), ("\U00010428", "\U00010400"), ("K", "\u212a"), ("\u1e9e", "\u00df")]
+# line-final characters: U+0400..U+043F end in every UTF-8 continuation byte 0x80..0xBF (D0 80 .. D0 BF);
+# line-initial characters: one per lead byte C2..DF, E0..EF, F0..F4
+TAILS = [chr(0x0400 + i) for i in range(64)]
+HEADS = ([bytes([b, 0xA1]).decode("utf-8") for b in range(0xC2, 0xE0)]
+         + [bytes([b, 0x81 if b == 0xED else 0xA9, 0x80]).decode("utf-8") for b in range(0xE0, 0xF0)]
+         + [bytes([b, 0x90 if b == 0xF0 else 0x80, 0x80, 0x80]).decode("utf-8") for b in range(0xF0, 0xF5)])
+HEADS = [c for c in HEADS if not c.isspace() and c not in "\u2028\u2029"]
+
+
+class Chars:
+    """round-robin over TAILS / HEADS, so that every run ends lines in every continuation byte and starts
+    tokens with every lead byte, whatever the seed"""
+
+    def __init__(self, offset=0):
+        self.t = offset * 5
+        self.h = offset * 3
+        self.final_bytes = set()
+
+    def tail(self):
+        c = TAILS[self.t % len(TAILS)]
+        self.t += 1
+        return c
+
+    def head(self):
+        c = HEADS[self.h % len(HEADS)]
+        self.h += 1
+        return c
+
+
+CHARS = Chars()
+
+
+def dress(rng, s, p_tail=0.3, p_head=0.12):
+    """character stress at the ends of a token"""
+    if rng.random() < p_tail:
+        s = s + CHARS.tail()
+    if rng.random() < p_head:
+        s = CHARS.head() + s
+    return s
 COMMENT_POOL = ["#", "# comment", "#Key: value", "#\tx", "# -----BEGIN PGP SIGNED MESSAGE-----",
                 "#-----END PGP SIGNATURE-----", "# \u00e9\u4e2d", "## x", "#Package: hidden", "# ", "#:", "#a:b"]
 CONT_PREFIX = [" ", " ", "\t", "  ", " \t"]
@@ -183,7 +237,8 @@ def sized_text(rng, n):
     chunk = "".join(rng.choice(ASCII_BODY) if ascii_only or rng.random() > 0.15 else rng.choice(UNI_BODY) for _ in range(m))
     s = (chunk * (n // m + 1))[:n]
     fix = lambda ch: ch if not ch.isspace() else "x"
-    return fix(s[0]) + s[1:-1] + fix(s[-1]) if n > 1 else fix(s[0])
+    last = CHARS.tail() if not ascii_only and rng.random() < 0.5 else fix(s[-1])
+    return fix(s[0]) + s[1:-1] + last if n > 1 else fix(s[0])
 
 
 def gen_data(rng, canonical=False, size=None):
@@ -193,11 +248,11 @@ def gen_data(rng, canonical=False, size=None):
     if canonical:
         return "v%d" % rng.randrange(1000)
     if rng.random() < 0.6:
-        return rng.choice(DATA_POOL)
+        return dress(rng, rng.choice(DATA_POOL))
     while True:
         s = _body(rng, rng.randint(1, 12))
         if s and not s[0].isspace() and not s[-1].isspace() and not (set(s) & D1):
-            return s
+            return dress(rng, s)
 
 
 def gen_cont(rng, canonical=False, size=None):
@@ -209,6 +264,8 @@ def gen_cont(rng, canonical=False, size=None):
     r = rng.random()
     if r < 0.3:
         return rng.choice(CONT_SPECIAL)
+    if r < 0.5:     # a line-final multi-byte character (no trailing blank after it)
+        return rng.choice(CONT_PREFIX) + gen_data(rng) + CHARS.tail()
     return rng.choice(CONT_PREFIX) + gen_data(rng) + rng.choice(["", "", "", " ", "\t", "  "])
 
 
@@ -227,7 +284,8 @@ def gen_key(rng, taken, canonical=False, avoid_mv=True, size=None):
 
 
 def gen_comment(rng):
-    return rng.choice(COMMENT_POOL) if rng.random() < 0.8 else "#" + _body(rng, rng.randint(0, 8)).replace("\x85", "")
+    c = rng.choice(COMMENT_POOL) if rng.random() < 0.8 else "#" + _body(rng, rng.randint(0, 8)).replace("\x85", "")
+    return c + CHARS.tail() if rng.random() < 0.3 else c
 
 
 def L(c, text, k="", t="", sp=False):
@@ -304,12 +362,32 @@ def check_domain(lines):
 
 # ------------------------------------------------------------------ driving the real code
 
-def make_input(form, texts, final_nl=True):
+XFORMS = ("gen", "tuple", "blines", "blines_nonl", "file_t", "file_b")      # secondary input forms
+_SCRATCH = []
+
+
+def _scratch_file(data):
+    import atexit
+    import shutil
+    import tempfile
+    if not _SCRATCH:
+        base = os.environ.get("VERIF_SCRATCH") or os.path.join(core.VERIF, ".work")
+        os.makedirs(base, exist_ok=True)
+        _SCRATCH.append(tempfile.mkdtemp(prefix="C02-files-", dir=base))
+        atexit.register(shutil.rmtree, _SCRATCH[0], True)
+    _SCRATCH.append(None)           # several files may be open at the same time: a new name per call, 64 names recycled
+    path = os.path.join(_SCRATCH[0], "doc-%d-%d" % (os.getpid(), len(_SCRATCH) % 64))
+    with open(path, "wb") as f:
+        f.write(data)
+    return path
+
+
+def make_input(form, texts, final_nl=True, enc="utf-8"):
     text = "\n".join(texts) + ("\n" if texts and final_nl else "")
     if form == "str":
         return text
     if form == "bytes":
-        return text.encode("utf-8")
+        return text.encode(enc)
     if form == "lines_nl":
         return [t + "\n" for t in texts[:-1]] + [texts[-1] + ("\n" if final_nl else "")] if texts else []
     if form == "lines":
@@ -317,8 +395,28 @@ def make_input(form, texts, final_nl=True):
     if form == "sio":
         return io.StringIO(text)
     if form == "bio":
-        return io.BytesIO(text.encode("utf-8"))
+        return io.BytesIO(text.encode(enc))
+    if form == "gen":
+        return (t + "\n" for t in list(texts))
+    if form == "tuple":
+        return tuple(t + "\n" for t in texts)
+    if form == "blines":
+        return [(t + "\n").encode(enc) for t in texts]
+    if form == "blines_nonl":
+        return [t.encode(enc) for t in texts]
+    if form == "file_b":
+        return open(_scratch_file(text.encode(enc)), "rb")
+    if form == "file_t":
+        return open(_scratch_file(text.encode(enc)), "r", encoding=enc, newline="\n")
     raise AssertionError(form)
+
+
+def close_input(x):
+    if hasattr(x, "close"):
+        try:
+            x.close()
+        except Exception:
+            pass
 
 
 def _cls(name):
@@ -396,6 +494,8 @@ def run_doc(job):
         return run_leak(job)
     if api == "keepalive":
         return run_keepalive(job)
+    if api == "surface":
+        return run_surface(job)
     x = make_input(form, texts, job.get("final_nl", True))
     exp = [[tuple(kv) for kv in p] for p in job["expected"]]
     if api == "iter":
@@ -538,6 +638,351 @@ def run_keepalive(job):
     return None
 
 
+# ------------------------------------------------------------------ API surface (notes/API_SURFACE.md)
+CLASSES = ("Deb822", "Dsc", "Changes", "BuildInfo", "PdiffIndex", "Release", "Sources", "Packages", "Removals")
+GPG_CLASSES = ("Dsc", "Changes", "BuildInfo", "Sources")          # raw signature pre-pass for non-str/bytes input
+PLAIN_CLASSES = tuple(c for c in CLASSES if c not in GPG_CLASSES)
+ALL_FORMS = FORMS + XFORMS
+WS_KEY = "whitespace-separates-paragraphs"
+CLONES = ("copy", "copy.copy", "deepcopy", "pickle0", "pickle1", "pickle2", "pickle3", "pickle4", "pickle5")
+
+
+def effective_strict(v):
+    """Sources / Packages .iter_paragraphs default to the lenient setting, everything else to the strict one"""
+    if v.get("strict") is not None:
+        return v["strict"]
+    return not (v["via"] == "iter" and v["cls"] in ("Sources", "Packages"))
+
+
+def call_parse(v, texts):
+    """one public way of parsing.  v: cls, via (ctor | iter), style (pos | kw | kwseq), form, final_nl, fields,
+    encoding, strict (None | True | False), use_apt_pkg, shared_storage, input_encoding.
+    returns (items or list of items or ('EXC', text), objects)"""
+    import warnings
+    x = None
+    try:
+        cls = _cls(v["cls"])
+        x = make_input(v["form"], texts, v.get("final_nl", True), v.get("input_encoding") or "utf-8")
+        fields, enc = v.get("fields"), v.get("encoding")
+        strict = None if v.get("strict") is None else {WS_KEY: v["strict"]}
+        style = v.get("style", "kw")
+        with warnings.catch_warnings():
+            warnings.simplefilter("ignore")
+            if v["via"] == "ctor":
+                if style == "pos":
+                    p = cls(x, fields, None, enc or "utf-8", strict)
+                else:
+                    kw = {}
+                    if fields is not None:
+                        kw["fields"] = fields
+                    if enc is not None:
+                        kw["encoding"] = enc
+                    if strict is not None:
+                        kw["strict"] = strict
+                    p = cls(sequence=x, **kw) if style == "kwseq" else cls(x, **kw)
+                return items_of(p), [p]
+            if style == "pos":
+                it = cls.iter_paragraphs(x, fields, v.get("use_apt_pkg", False), v.get("shared_storage", False),
+                                         enc or "utf-8", strict)
+            else:
+                kw = {"use_apt_pkg": v.get("use_apt_pkg", False)}
+                if fields is not None:
+                    kw["fields"] = fields
+                if enc is not None:
+                    kw["encoding"] = enc
+                if strict is not None:
+                    kw["strict"] = strict
+                if v.get("shared_storage"):
+                    kw["shared_storage"] = True
+                it = cls.iter_paragraphs(sequence=x, **kw) if style == "kwseq" else cls.iter_paragraphs(x, **kw)
+            ps = list(it)
+            return [items_of(p) for p in ps], ps
+    except Exception as e:
+        return ("EXC", "%s: %s" % (type(e).__name__, e)), None
+    finally:
+        close_input(x)
+
+
+def vdesc(v):
+    return "%s%s(<%s>%s) [%s%s%s%s]" % (v["cls"], ".iter_paragraphs" if v["via"] == "iter" else "", v["form"],
+                                         "" if v.get("final_nl", True) else ", no final newline", v.get("style", "kw"),
+                                         "" if v.get("fields") is None else ", fields=%r" % (v["fields"],),
+                                         "" if v.get("encoding") is None else ", encoding=%r" % v["encoding"],
+                                         "" if v.get("strict") is None else ", strict={%s: %s}" % (WS_KEY, v["strict"]))
+
+
+def dump_variants(p, want, enc="utf-8", files=False):
+    """every public way of dumping one paragraph; returns None or a message"""
+    got = []
+    try:
+        got.append(("dump()", p.dump(), want))
+        b = io.BytesIO()
+        r = p.dump(b)
+        got.append(("dump(BytesIO)", b.getvalue(), want.encode(enc)))
+        got.append(("dump(BytesIO) return value", r, None))
+        b = io.BytesIO()
+        p.dump(b, "utf-8")
+        got.append(("dump(BytesIO, 'utf-8')", b.getvalue(), want.encode("utf-8")))
+        b = io.BytesIO()
+        p.dump(fd=b, encoding="utf-8", text_mode=False)
+        got.append(("dump(fd=BytesIO, encoding='utf-8', text_mode=False)", b.getvalue(), want.encode("utf-8")))
+        t = io.StringIO()
+        p.dump(t, text_mode=True)
+        got.append(("dump(StringIO, text_mode=True)", t.getvalue(), want))
+        t = io.StringIO()
+        p.dump(t, None, True)
+        got.append(("dump(StringIO, None, True)", t.getvalue(), want))
+        got.append(("str(d)", str(p), want))
+        got.append(("bytes(d)", bytes(p), want.encode(enc)))
+        got.append(("d.__unicode__()", p.__unicode__(), want))
+        try:
+            l1 = want.encode("latin-1")
+        except UnicodeEncodeError:
+            l1 = None
+        if l1 is not None:
+            b = io.BytesIO()
+            p.dump(b, encoding="latin-1")
+            got.append(("dump(BytesIO, encoding='latin-1')", b.getvalue(), l1))
+        if files:
+            path = _scratch_file(b"")
+            with open(path, "wb") as f:
+                p.dump(f)
+            got.append(("dump(<binary file>)", open(path, "rb").read(), want.encode(enc)))
+            with open(path, "w", encoding="utf-8", newline="\n") as f:
+                p.dump(f, text_mode=True)
+            got.append(("dump(<text file>, text_mode=True)", open(path, "rb").read(), want.encode("utf-8")))
+        got.append(("[(k, d.get_as_string(k)) for k in d]", [(k, p.get_as_string(k)) for k in p], items_of(p)))
+    except Exception as e:
+        return "%s after %s raised %s: %s" % ("dump variant", got[-1][0] if got else "nothing", type(e).__name__, e)
+    for name, g, w in got:
+        if g != w:
+            return "%s = %s, dump() of the expected paragraph: %s" % (name, repr(g)[:1200], repr(w)[:1200])
+    return None
+
+
+def clone(p, how):
+    import copy
+    import pickle
+    if how == "copy":
+        return p.copy()
+    if how == "copy.copy":
+        return copy.copy(p)
+    if how == "deepcopy":
+        return copy.deepcopy(p)
+    return pickle.loads(pickle.dumps(p, int(how[6:])))
+
+
+def run_surface(job):
+    """one probe of the API surface; job: what, lines, expected, v (parse variant) ..."""
+    what, texts, v = job["what"], job["lines"], job["v"]
+    exp = [[tuple(kv) for kv in p] for p in job["expected"]]
+    if what == "gpgstrip":
+        try:
+            cls = _cls(v["cls"])
+            outs = []
+            for form in ("lines_nl", "blines", "lines", "gen"):
+                x = make_input(form, texts)
+                strict = None if v.get("strict") is None else {WS_KEY: v["strict"]}
+                if v.get("style") == "pos":
+                    outs.append(("%s.gpg_stripped_paragraph(<%s>, strict)" % (v["cls"], form), cls.gpg_stripped_paragraph(iter(x), strict)))
+                elif v.get("style") == "kw":
+                    outs.append(("%s.split_gpg_and_payload(<%s>)[1]" % (v["cls"], form), cls.split_gpg_and_payload(iter(x), strict=strict)[1]))
+                else:
+                    outs.append(("%s.gpg_stripped_paragraph(<%s>)" % (v["cls"], form), cls.gpg_stripped_paragraph(iter(x))))
+        except Exception as e:
+            return "gpg_stripped_paragraph raised %s: %s" % (type(e).__name__, e)
+        want = [t.encode("utf-8") for t in job["payload"]]
+        for name, got in outs:
+            if list(got) != want:
+                return "%s = %s" % (name, brief(list(got), want))
+        return None
+    got, objs = call_parse(v, texts)
+    want = exp if v["via"] == "iter" else (exp[0] if exp else [])
+    if got != want:
+        return "%s = %s" % (vdesc(v), brief(got, want))
+    if what == "parse":
+        return None
+    dumps = job.get("dumps") or []
+    enc = v.get("encoding") or "utf-8"
+    if what == "dump":
+        for i, p in enumerate(objs):
+            m = dump_variants(p, dumps[i], enc, files=job.get("files", False))
+            if m:
+                return "paragraph %d parsed by %s: %s" % (i + 1, vdesc(v), m)
+        return None
+    if what == "clone":
+        # two live objects made through DIFFERENT entry points, then copied / pickled
+        got2, objs2 = call_parse(job["v2"], texts)
+        want2 = exp if job["v2"]["via"] == "iter" else exp[0]
+        if got2 != want2:
+            return "%s = %s" % (vdesc(job["v2"]), brief(got2, want2))
+        a = objs[0]
+        b = objs2[0]
+        how = job["how"]
+        try:
+            c = clone(a, how)
+            c2 = clone(b, job["how2"])
+        except Exception as e:
+            if "pickle0" in (how, job["how2"]) or "pickle1" in (how, job["how2"]):
+                # UNSPECIFIED (observation for the maintainers): pickle protocols 0 and 1 cannot serialise the
+                # case-insensitive key strings (__slots__ without __getstate__); protocols 2..5 are judged
+                job["_unspecified"] = "pickle protocol 0/1: %s: %s" % (type(e).__name__, e)
+                return None
+            return "%s of a paragraph parsed by %s raised %s: %s" % (how, vdesc(v), type(e).__name__, e)
+        for name, o, src in (("%s of the result of %s" % (how, vdesc(v)), c, a), ("%s of the result of %s" % (job["how2"], vdesc(job["v2"])), c2, b)):
+            if type(o) is not type(src):
+                return "%s is a %s, the original a %s" % (name, type(o).__name__, type(src).__name__)
+            if items_of(o) != exp[0]:
+                return "%s shows %s" % (name, brief(items_of(o), exp[0]))
+            m = dump_variants(o, dumps[0], enc)
+            if m:
+                return "%s: %s" % (name, m)
+        mutate(c)
+        mutate(b)
+        for name, o, h in (("the original after its %s was mutated" % how, a, how),
+                           ("the %s after its original was mutated" % job["how2"], c2, job["how2"])):
+            if items_of(o) != exp[0]:
+                if h == "copy.copy":
+                    # UNSPECIFIED (observation): copy.copy() is shallow and shares the field storage with the
+                    # original, unlike d.copy(); only copy(), deepcopy and pickle are judged for independence
+                    job["_unspecified"] = "copy.copy shares the field storage with the original"
+                    return None
+                return "%s shows %s" % (name, brief(items_of(o), exp[0]))
+        m = dump_variants(a, dumps[0], enc) or dump_variants(c2, dumps[0], enc)
+        if m:
+            return "after mutating the other object: %s" % m
+        return None
+    return "unknown probe %r" % what
+
+
+def latin1_text(rng, cont=False):
+    """latin-1 text (for documents parsed with encoding='latin-1'): no C1 controls (U+0085 is a D1 character)"""
+    pool = [chr(c) for c in range(0x21, 0x7f)] + [chr(c) for c in range(0xa1, 0x100)] * 2 + [" ", "\xa0", "\t"]
+    while True:
+        body = "".join(rng.choice(pool) for _ in range(rng.randint(1, 10))) + chr(0xa1 + rng.randrange(0x5f))
+        if not body[0].isspace() and not body[-1].isspace():
+            return (rng.choice(" \t") + body) if cont else body
+
+
+def surface_jobs(rng, idx, case, conc, model, exp_json, dumps, quick, armor_hdrs, armor_fields, sig_bools):
+    """probes of the secondary entry points for this case (rotating with the case index, so that a quick run
+    goes through every class / call style / input form / dump variant / clone operation many times).
+    yields (job, diagnostic)"""
+    texts = [ln["text"] for ln in model]
+    np_ = len(exp_json)
+    if np_ == 0:
+        return
+    nfields = sum(len(p) for p in case["doc"])
+    base = {"api": "surface", "lines": texts, "expected": exp_json, "variant": "surface"}
+
+    def variant(n, via, classes=CLASSES, **kw):
+        cls = classes[n % len(classes)]
+        form = ALL_FORMS[(n * 5 + idx) % len(ALL_FORMS)]
+        if cls in GPG_CLASSES and (via == "iter" or form not in ("str", "bytes")) and (np_ > 1 or kw.get("ws")):
+            form, via = ("str", "bytes")[n % 2], "ctor"      # keep to what TLC has checked for the signature pre-pass
+        kw.pop("ws", None)
+        v = {"cls": cls, "via": via, "style": ("pos", "kw", "kwseq")[(n + idx // 3) % 3], "form": form,
+             "use_apt_pkg": bool((n + idx) % 2), "shared_storage": bool((n // 2) % 2),
+             "encoding": (None, "utf-8", "UTF-8")[(n + idx // 2) % 3], "strict": (None, True, False)[(n + idx // 5) % 3],
+             "final_nl": not (form in ("str", "bytes", "sio", "bio", "file_t", "file_b") and texts[-1] != "" and n % 4 == 1)}
+        v.update(kw)
+        return v
+
+    # A. the same document through another class / call style / input form: same paragraphs
+    yield dict(base, what="parse", v=variant(idx, "ctor")), False
+    yield dict(base, what="parse", v=variant(idx * 7 + 3, "iter", PLAIN_CLASSES if np_ > 1 else CLASSES)), False
+    # B. every way of dumping the parsed paragraphs
+    yield dict(base, what="dump", dumps=dumps, files=(idx % 5 == 0),
+               v=variant(idx + 4, "iter", PLAIN_CLASSES if np_ > 1 else CLASSES)), False
+    # C. copy / deepcopy / pickle of objects made through two different entry points, both alive
+    if idx % 2 == 0:
+        yield dict(base, what="clone", dumps=dumps, how=CLONES[(idx // 2) % len(CLONES)], how2=CLONES[(idx // 2 + 4) % len(CLONES)],
+                   v=variant(idx + 1, "ctor"), v2=variant(idx + 6, "iter", PLAIN_CLASSES if np_ > 1 else CLASSES)), False
+    # D. fields=[...]: exactly the named fields, as long as every paragraph keeps one (else: unspecified)
+    names = sorted({f["k"] for p in case["doc"] for f in p})
+    if names and nfields <= 4:
+        w = set(rng.sample(names, rng.randint(1, len(names))))
+        kept = [[f for f in p if f["k"] in w] for p in case["parse"]]
+        fexp = [[[conc.key[f["k"]], conc.value(f, False)] for f in p] for p in kept]
+        unspecified = any(not p for p in kept)
+        wanted = [conc.key[k] for k in sorted(w)]
+        rng.shuffle(wanted)
+        for via in ("ctor", "iter"):
+            yield dict(base, what="parse", expected=fexp if not unspecified else exp_json,
+                       v=variant(idx + (2 if via == "ctor" else 5), via, PLAIN_CLASSES, fields=wanted, strict=None)), unspecified
+        if idx % 10 == 0 and any(k.lower() != k for k in wanted):
+            yield dict(base, what="parse", expected=fexp, v=variant(idx, "ctor", ("Deb822",), fields=[k.lower() for k in wanted], strict=None)), True
+    # E. a white-space-only line (>= 2 characters) inside the document and the strictness flag, by keyword /
+    #    positionally / through the classes whose iter_paragraphs default to the lenient setting
+    ws = case.get("wsat")
+    if ws and ws.get("ws") and ws.get("nows"):
+        n = len(model)
+        i = rng.randrange(0, n + 1)
+        wtext = rng.choice(["  ", "\t ", " \t", "   ", "\t\t", "  \t  "])
+        lines_ws = texts[:i] + [wtext] + texts[i:]
+        conc.text[888] = wtext
+        stray = i < n and model[i]["c"] == "Cont"      # strict: the rest of the value becomes stray continuation lines
+
+        def conc_ws(res):
+            return [[[conc.key[f["k"]], "\n".join(conc.text[t] for t in f["v"])] for f in p] for p in res]
+        for r, strict in enumerate((None, True, False)):
+            for via in ("ctor", "iter"):
+                v = variant(idx + 3 * r + (1 if via == "iter" else 0), via, strict=strict, ws=True)
+                eff = effective_strict(v)
+                if eff and stray:
+                    continue
+                yield dict(base, what="parse", lines=lines_ws, expected=conc_ws((ws["ws"] if eff else ws["nows"])["at"][i]), v=v), False
+        # the gpg-aware classes given a list / file: signature pre-pass and field parser must use the same flag
+        if np_ == 1 and ws["ws"].get("gat"):
+            strict = (None, True, False)[idx % 3]
+            eff = strict is not False
+            if not (eff and stray):
+                g = (ws["ws"] if eff else ws["nows"])["gat"][i]
+                v = {"cls": GPG_CLASSES[idx % len(GPG_CLASSES)], "via": "ctor", "style": ("pos", "kw", "kwseq")[(idx // 4) % 3],
+                     "form": ("lines_nl", "bio", "sio", "lines", "gen", "file_b", "blines", "file_t", "tuple")[idx % 9], "strict": strict}
+                yield dict(base, what="parse", lines=lines_ws, expected=conc_ws([g]), v=v), False
+    # F. the clearsign payload as returned by gpg_stripped_paragraph / split_gpg_and_payload
+    if np_ == 1 and nfields <= armor_fields and idx % 3 == 0:
+        shape = {"nh": armor_hdrs[idx % len(armor_hdrs)], "b": bool(idx % 2), "sb": sig_bools[idx % len(sig_bools)],
+                 "sh": sig_bools[(idx // 2) % len(sig_bools)]}
+        a = armor_lines(rng, model, shape)
+        yield dict(base, what="gpgstrip", lines=[ln["text"] for ln in a], payload=texts,
+                   v={"cls": CLASSES[idx % len(CLASSES)], "via": "ctor", "form": "lines_nl", "style": ("pos", "kw", "plain")[idx % 3],
+                      "strict": (None, True, False)[(idx // 3) % 3]}), False
+
+
+def latin1_jobs(rng, idx, case):
+    """the same abstract document as latin-1 text: bytes input forms with encoding='latin-1' (verdict), text input
+    forms with a non-UTF-8 encoding (unspecified: the reader encodes str lines as UTF-8 first)"""
+    keys, text = {}, {0: ""}
+    taken = set()
+    for p in case["doc"]:
+        for f in p:
+            if f["k"] not in keys:
+                keys[f["k"]] = gen_key(rng, taken)
+                taken.add(keys[f["k"]].lower())
+            for j, t in enumerate(f["v"]):
+                if t != 0:
+                    text[t] = latin1_text(rng, cont=j > 0)
+    expected = [[(keys[f["k"]], "\n".join(text[t] for t in f["v"])) for f in p] for p in case["parse"]]
+    dumped = build_and_dump(expected)
+    if isinstance(dumped, tuple) or not expected:
+        return
+    dumps = [build_and_dump([p]) for p in expected]
+    texts = dumped.split("\n")[:-1]
+    exp_json = [[list(kv) for kv in p] for p in expected]
+    base = {"api": "surface", "lines": texts, "expected": exp_json, "variant": "latin-1"}
+    bforms = ("bytes", "bio", "blines", "blines_nonl", "file_b")
+    for n, via in enumerate(("ctor", "iter")):
+        v = {"cls": PLAIN_CLASSES[(idx + n) % len(PLAIN_CLASSES)], "via": via, "style": ("pos", "kw")[(idx + n) % 2],
+             "form": bforms[(idx + 2 * n) % len(bforms)], "encoding": ("latin-1", "iso-8859-1")[idx % 2], "input_encoding": "latin-1",
+             "strict": None}
+        yield dict(base, what="dump" if via == "iter" else "parse", dumps=dumps, v=v), False
+    v = {"cls": "Deb822", "via": "iter", "style": "kw", "form": ("str", "sio", "lines_nl", "file_t")[idx % 4], "encoding": "latin-1",
+         "input_encoding": "latin-1", "strict": None}
+    yield dict(base, what="parse", v=v), True
+
+
 # ------------------------------------------------------------------ (a) CASE replay
 
 class CaseConc:
@@ -548,6 +993,7 @@ class CaseConc:
         taken = {NEW_KEY.lower()}
         sz_name = (lambda: sizes.name(rng)) if sizes else (lambda: None)
         sz_line = (lambda: sizes.line(rng)) if sizes else (lambda: None)
+        kinds = {}
         self.text = {0: ""}
         self.pad = {}
         for p in case["doc"]:
@@ -563,6 +1009,14 @@ class CaseConc:
                         self.pad[id(f)] = ("", "") if canonical else (rng.choice(PAD_L), rng.choice(PAD_R))
                     else:
                         self.text[tid] = gen_cont(rng, canonical, size=sz_line())
+                    kinds[tid] = "data" if j == 0 else "cont"
+        # normalisation / case twins as two different values of the same document
+        ids = sorted(t for t in kinds if t != 0 and len(self.text[t]) < 200)
+        if not canonical and len(ids) >= 2 and rng.random() < 0.3:
+            i, j = rng.sample(ids, 2)
+            a, b = rng.choice(TWINS)
+            for t, tw in ((i, a), (j, b)):
+                self.text[t] = ("tw" + tw) if kinds[t] == "data" else (" tw" + tw)
 
     def value(self, f, padded):
         first = self.text[f["v"][0]]
@@ -707,7 +1161,7 @@ def variants(rng, base, np_, full, armor_hdrs, armor_ok=True, sig_bools=(True, F
 
 
 def replay_case(drifts, case, rng, canonical, full, stats, armor_hdrs, armor_fields=3, sig_bools=(True, False), prev=None,
-                sizes=None, big=False):
+                sizes=None, big=False, idx=0, quick=True):
     """returns list of (job, message) violations; diagnostic mismatches are appended to drifts"""
     conc = CaseConc(rng, case, canonical, sizes=sizes)
     np_ = len(case["doc"])
@@ -730,6 +1184,15 @@ def replay_case(drifts, case, rng, canonical, full, stats, armor_hdrs, armor_fie
         return [(job, "cannot build/dump a paragraph of valid names and values %r: %r" % (orig, text1))]
     model = [conc.line(ln) for ln in case["lines"]]
     check_domain(model)
+    fb = stats.setdefault("set:line_final_bytes>=0x80", [])
+    lb = stats.setdefault("set:token_lead_bytes>=0xC2", [])
+    for ln in model:
+        bts = ln["text"].encode("utf-8")
+        if bts and bts[-1] >= 0x80 and bts[-1] not in fb:
+            fb.append(bts[-1])
+        tok = (ln["t"] if ln["c"] == "Single" else ln["text"].lstrip(" \t")).encode("utf-8")
+        if tok and tok[0] >= 0xC2 and tok[0] not in lb:
+            lb.append(tok[0])
     model_text = "".join(ln["text"] + "\n" for ln in model)
     exp_json = [[list(kv) for kv in p] for p in expected]
     first_dump = build_and_dump(expected[:1])
@@ -763,6 +1226,32 @@ def replay_case(drifts, case, rng, canonical, full, stats, armor_hdrs, armor_fie
     if msg:
         bad.append((job, msg))
     stats["_keep"] = {"objs": keep[0] if keep else [], "lines": job["lines"], "expected": exp_json, "form": fa}
+    # secondary entry points (API surface): rotating sample, same verdicts
+    if base_jobs is None:
+        dumps = [build_and_dump([p]) for p in expected]
+        sj = list(surface_jobs(rng, idx, case, conc, model, exp_json, dumps, quick, armor_hdrs, armor_fields, sig_bools))
+        if idx % 5 == 1 and not big:
+            sj += list(latin1_jobs(rng, idx, case))
+        for job, diag in sj:
+            stats["runs"] += 1
+            key = "surface:" + job["what"] + (":" + job["variant"] if job["variant"] != "surface" else "")
+            stats[key] = stats.get(key, 0) + 1
+            for kk in ("cls", "style", "form", "via"):
+                stats["surface_%s:%s" % (kk, job["v"].get(kk))] = stats.get("surface_%s:%s" % (kk, job["v"].get(kk)), 0) + 1
+            msg = run_surface(job)
+            note = job.pop("_unspecified", None)
+            if note:
+                stats["surface_unspecified:" + note.split(":")[0]] = stats.get("surface_unspecified:" + note.split(":")[0], 0) + 1
+            if not msg:
+                continue
+            if diag:
+                stats["surface_unspecified_divergences"] = stats.get("surface_unspecified_divergences", 0) + 1
+                if stats.setdefault("surface_unspecified_logged", 0) < 2:
+                    stats["surface_unspecified_logged"] += 1
+                    drifts.append("UNSPECIFIED entry-point divergence (fields= leaving a paragraph empty / other spelling of a name, "
+                                  "or text input with a non-UTF-8 encoding): %s" % msg)
+            else:
+                bad.append((job, msg))
     if base_jobs is not None:
         vs = base_jobs
     elif big:
@@ -814,6 +1303,8 @@ def replay_chunk(args):
     every case has its own seeded generator, so the result does not depend on the slicing"""
     seed, repo, items, k, quick, armor_hdrs, armor_fields, chunk_no, nchunks = args
     import sys
+    import warnings
+    warnings.filterwarnings("ignore", message="Parsing of Deb822 data with python3-apt")
     lib = os.path.join(repo, "lib")
     if lib not in sys.path:
         sys.path.insert(0, lib)
@@ -822,6 +1313,8 @@ def replay_chunk(args):
     prev = None
     # size stress (notes/SIZE_STRESS.md): every 6th case (thorough: every 3rd second concretization) gets
     # names / lines of boundary lengths; the large documents get a few of them
+    global CHARS
+    CHARS = Chars(offset=chunk_no)
     sizes = Sizes(offset=chunk_no * 7, huge=(3 if nchunks == 1 else 1) if chunk_no < 3 else 0)
     bigsizes = Sizes(offset=chunk_no * 3 + 7, huge=1, p_name=0.5, p_line=0.02)
     for idx, case in items:
@@ -835,7 +1328,7 @@ def replay_chunk(args):
             stats["size_stressed_cases"] = stats.get("size_stressed_cases", 0) + stressed
             b = replay_case(drifts, case, crng, canonical=(c == 0 and idx % 2 == 0 and not stressed), full=full, stats=stats,
                             armor_hdrs=armor_hdrs, armor_fields=armor_fields, sig_bools=(True,) if quick else (True, False),
-                            prev=prev, sizes=(bigsizes if big else sizes) if stressed else None, big=big)
+                            prev=prev, sizes=(bigsizes if big else sizes) if stressed else None, big=big, idx=idx, quick=quick)
             bad += [(idx, job, msg) for job, msg in b]
             cur = stats.pop("_keep", None)
             # (1) the objects of the previous case are still alive: they must not have changed
@@ -865,7 +1358,7 @@ def gen_paragraph(rng, comments, keys_taken=None, sizes=None, nfields=None, ncon
     sz_name = (lambda: sizes.name(rng)) if sizes else (lambda: None)
     sz_line = (lambda: sizes.line(rng)) if sizes else (lambda: None)
     for fi in range(nfields or rng.randint(1, 5)):
-        k = gen_key(rng, taken, avoid_mv=False, size=sz_name()) if not canonical or sizes else "F%d" % fi
+        k = gen_key(rng, taken, size=sz_name()) if not canonical or sizes else "F%d" % fi
         taken.add(k.lower())
         if rng.random() < 0.3:
             lines.append(multi_line(rng, k))
@@ -942,7 +1435,7 @@ def proj(paragraphs):
     return [[{"k": k, "v": v.split("\n")} for k, v in p] for p in paragraphs]
 
 
-def record(lines, form, final_nl=True, strict=None, keep=None, only=None):
+def record(lines, form, final_nl=True, strict=None, keep=None, only=None, via=None):
     """prefix closure: the real reader on the first i lines, i = 1..n
     (keep: list that receives the paragraph objects of the complete document;
      only: set of prefix lengths to observe -- large documents; the others are logged as np = -2)"""
@@ -954,7 +1447,10 @@ def record(lines, form, final_nl=True, strict=None, keep=None, only=None):
             obs.append({"np": -2, "last": []})
             continue
         last_nl = final_nl or i < len(texts) or texts[i - 1] == ""
-        res, ps = read_iter("Deb822", make_input(form, texts[:i], last_nl), strict)
+        if via:         # another class / call style (API surface)
+            res, ps = call_parse(dict(via, via="iter", form=form, final_nl=last_nl), texts[:i])
+        else:
+            res, ps = read_iter("Deb822", make_input(form, texts[:i], last_nl), strict)
         if keep is not None and i == len(texts):
             keep[:] = ps or []
         if isinstance(res, tuple):
@@ -1093,7 +1589,13 @@ def calls_steps(rng, path, conc):
     for e in path:
         expect = [{"items": [[conc.key[f["k"]], "\n".join(conc.text[t] for t in f["v"])] for f in o["val"]], "mut": o["mut"]}
                   for o in e["to"]["heap"]]
-        steps.append({"op": e["op"], "args": e["args"], "res": e["res"], "form": rng.choice(FORMS), "expect": expect})
+        form = rng.choice(ALL_FORMS)
+        cls = rng.choice(CLASSES if e["op"] == "parse" else PLAIN_CLASSES)
+        if cls in GPG_CLASSES and form not in ("str", "bytes"):
+            form = rng.choice(("str", "bytes"))          # document 1 has two paragraphs: stay with what TLC has checked
+        steps.append({"op": e["op"], "args": e["args"], "res": e["res"], "form": form, "expect": expect, "cls": cls,
+                      "style": rng.choice(("pos", "kw", "kwseq")), "strict": rng.choice((None, True, False)),
+                      "use_apt_pkg": rng.random() < 0.5})
     return steps
 
 
@@ -1101,17 +1603,37 @@ def exec_calls(steps, texts, drifts=None):
     """perform the calls of one behaviour of Deb822ReaderCalls on the real classes; after every call
     every object handed out so far must show what the specification says (objects the caller has
     mutated himself: diagnostic only)"""
-    from debian.deb822 import Deb822
-    objs, iters = [], []
+    objs, iters, inputs = [], [], []
+    try:
+        return _exec_calls(steps, texts, drifts, objs, iters, inputs)
+    finally:
+        for x in inputs:
+            close_input(x)
+
+
+def _exec_calls(steps, texts, drifts, objs, iters, inputs):
     for n, st in enumerate(steps):
         op, args = st["op"], st["args"]
-        where = "call %d %s%r <%s>" % (n + 1, op, tuple(args), st["form"])
+        where = "call %d %s%r <%s> via %s/%s" % (n + 1, op, tuple(args), st["form"], st.get("cls", "Deb822"), st.get("style", "kw"))
         new = None
         try:
-            if op == "parse":
-                new = Deb822(make_input(st["form"], texts[args[0] - 1]))
-            elif op == "open":
-                iters.append(Deb822.iter_paragraphs(make_input(st["form"], texts[args[0] - 1]), use_apt_pkg=False))
+            if op in ("parse", "open"):
+                import warnings
+                cls = _cls(st.get("cls", "Deb822"))
+                x = make_input(st["form"], texts[args[0] - 1])
+                inputs.append(x)
+                strict = None if st.get("strict") is None else {WS_KEY: st["strict"]}
+                style = st.get("style", "kw")
+                with warnings.catch_warnings():
+                    warnings.simplefilter("ignore")
+                    if op == "parse":
+                        new = (cls(x, None, None, "utf-8", strict) if style == "pos" else
+                               cls(sequence=x, strict=strict) if style == "kwseq" else cls(x, strict=strict))
+                    else:
+                        ua = st.get("use_apt_pkg", False)
+                        iters.append(cls.iter_paragraphs(x, None, ua, False, "utf-8", strict) if style == "pos" else
+                                     cls.iter_paragraphs(sequence=x, use_apt_pkg=ua, strict=strict) if style == "kwseq" else
+                                     cls.iter_paragraphs(x, use_apt_pkg=ua, strict=strict))
             elif op == "next":
                 try:
                     new = next(iters[args[0] - 1])
@@ -1155,6 +1677,8 @@ def cfg_text(name, **sub):
 
 
 def run(ctx):
+    import warnings
+    warnings.filterwarnings("ignore", message="Parsing of Deb822 data with python3-apt")
     quick = ctx.tier == "quick"
     rng = ctx.rng
     ctx.import_repo()
@@ -1178,7 +1702,7 @@ def run(ctx):
     # 1. design level, concurrently: closed automaton (2 strictness values), bounded documents
     #    (multi-paragraph: no armor; single paragraph: armor + Dsc pre-pass), negative controls
     inv_multi = ["RoundTrip", "ParseOneOk", "CommentInvariant", "LeadingBlankInvariant", "TrailingInvariant",
-                 "SeparatorInvariant", "EmitCase"]
+                 "SeparatorInvariant", "FieldsInvariant", "EmitWs", "EmitCase"]
     inv_armor = ["RoundTrip", "ArmorInvariant", "GpgMvAgrees"]
 
     def bnd_cfg(inv, **sub):
@@ -1200,23 +1724,26 @@ def run(ctx):
     if quick:
         heavy = [
             big_job,
-            dict(name="bnd_docs", cfg=bnd_cfg(inv_multi, MaxTotal=str(maxtotal), Emit="TRUE"), workers=workers, tags={"CASE"}),
+            dict(name="bnd_docs", cfg=bnd_cfg(inv_multi, MaxTotal=str(maxtotal), Emit="TRUE"), workers=workers, tags={"CASE", "WSAT"}),
             dict(name="bnd_armor", cfg=bnd_cfg(inv_armor, MaxPara="1", MaxTotal=str(armor_fields), ArmorHdrs=hdrs,
                                                SigBools="{TRUE}"), workers=workers, tags=set()),
         ]
     else:
         heavy = [
-            dict(name="bnd_docs", cfg=bnd_cfg(inv_multi, MaxTotal=str(maxtotal), Emit="TRUE"), workers=workers, tags={"CASE"}),
+            dict(name="bnd_docs", cfg=bnd_cfg(inv_multi, MaxTotal=str(maxtotal), Emit="TRUE"), workers=workers, tags={"CASE", "WSAT"}),
             dict(name="bnd_deep", cfg=bnd_cfg(inv_deep, MaxTotal="5"), workers=workers, tags=set()),
             dict(name="bnd_armor", cfg=bnd_cfg(inv_armor, MaxPara="1", MaxTotal=str(armor_fields), ArmorHdrs=hdrs),
                  workers=workers, tags=set()),
-            dict(name="bnd_wide", cfg=bnd_cfg(inv_multi[:-1], MaxTotal="9", MaxCont="1", ShapeMode="1"), workers=workers, tags=set()),
+            dict(name="bnd_wide", cfg=bnd_cfg(inv_multi[:-2], MaxTotal="9", MaxCont="1", ShapeMode="1"), workers=workers, tags=set()),
             big_job,
         ]
     controls = NEG_CONTROLS if not quick else [NEG_CONTROLS[ctx.seed % len(NEG_CONTROLS)], NEG_CONTROLS[(ctx.seed + 2) % len(NEG_CONTROLS)]]
     for const, val, inv in controls:
         light.append(dict(name="neg:%s=%s" % (const, val), expect=inv, workers=1, tags=set(),
                           cfg=cfg_text("MC_Deb822Reader_bnd.cfg", MaxTotal="2", MaxCont="1", ArmorHdrs="{1}", **{const: val})))
+    # the same documents under the lenient strictness flag: only what the reader returns for a white-space-only line
+    light.append(dict(name="bnd_nows", workers=2, tags={"WSAT"},
+                      cfg=bnd_cfg(["EmitWs"], MaxTotal="3", Emit="TRUE", WsSeparates="FALSE")))
     kinds = '{"heavy"}' if quick else '{"heavy", "del", "first"}'
     light.append(dict(name="calls", module="Deb822ReaderCalls", workers=3 if quick else 4, tags={"EDGE", "DOCS"},
                       cfg=cfg_text("MC_Deb822ReaderCalls.cfg", Kinds=kinds)))
@@ -1273,6 +1800,14 @@ def run(ctx):
     if len(cases) != res["bnd_docs"].distinct or any(not isinstance(c, dict) for c in cases):
         raise core.MachineryError("bounded configuration: %d CASE lines for %d states" % (len(cases), res["bnd_docs"].distinct))
     cases.sort(key=lambda c: (c["np"], len(c["lines"]), skey(c["shape"])))
+    ws_by_shape = {}
+    for tag, r in (("ws", res["bnd_docs"]), ("nows", res["bnd_nows"])):
+        for w in r.printed.get("WSAT", []):
+            if isinstance(w, dict):
+                ws_by_shape.setdefault(skey(w["shape"]), {})[tag] = w
+    for c in cases:
+        c["wsat"] = ws_by_shape.get(skey(c["shape"]))
+    ctx.extra["model"]["documents_with_strictness_expectations"] = sum(1 for c in cases if c["wsat"] and len(c["wsat"]) == 2)
     bigcases = [c for c in res["bnd_big"].printed.get("CASE", []) if isinstance(c, dict) and c["np"] > 0]
     if 2 * len(bigcases) != res["bnd_big"].distinct:
         raise core.MachineryError("size-stress configuration: %d CASE lines for %d states" % (len(bigcases), res["bnd_big"].distinct))
@@ -1305,7 +1840,7 @@ def run(ctx):
             outs = pool.map(replay_chunk, chunks)
     stats = {}
     all_bad = []
-    n_unspec_logged = 0
+    n_unspec_logged = {}
     for st, drifts, bad in outs:
         for kk, v in st.items():
             if kk.startswith("max:"):
@@ -1316,13 +1851,15 @@ def run(ctx):
                 stats[kk] = stats.get(kk, 0) + v
         for d in drifts:
             if d.startswith("UNSPECIFIED"):
-                n_unspec_logged += 1
-                if n_unspec_logged > 2:
+                cat = d[:24]
+                n_unspec_logged[cat] = n_unspec_logged.get(cat, 0) + 1
+                if n_unspec_logged[cat] > 2:
                     continue
             ctx.drift(d)
         all_bad += bad
     all_bad.sort(key=lambda x: (x[0], x[1].get("variant", "") != "plain", x[1].get("variant", ""),
-                                FORMS.index(x[1]["form"]), x[1]["api"]))
+                                ALL_FORMS.index(x[1].get("form") or x[1].get("v", {}).get("form", "str")), x[1]["api"],
+                                json.dumps(x[1].get("v"), sort_keys=True)))
     for idx, job, msg in all_bad[:5]:
         ctx.violation({"kind": "doc", "job": job, "shape": cases[idx]["shape"]}, msg)
     for idx, case in items:
@@ -1396,6 +1933,9 @@ def run(ctx):
     bigdims = BIG_TRACE_DOCS[:8] if quick else BIG_TRACE_DOCS
     bigpos = {(j + 1) * (ndocs // (len(bigdims) + 1)): d for j, d in enumerate(bigdims)}
     tstat = {"paragraphs": 0, "fields": 0, "continuation_lines": 0, "lines": 0}
+    vstat = {}
+    global CHARS
+    CHARS = Chars(offset=ctx.seed + 11)
     for i in range(ndocs):
         only = None
         if i in bigpos:
@@ -1409,11 +1949,15 @@ def run(ctx):
         else:
             lines = gen_doc(rng, sizes=tsizes if i % 5 == 2 else None)
         check_domain(lines)
-        form = FORMS[i % len(FORMS)]
-        final_nl = not (lines[-1]["text"] != "" and rng.random() < 0.3)
+        form = ALL_FORMS[i % len(ALL_FORMS)]
+        final_nl = not (lines[-1]["text"] != "" and rng.random() < 0.3) or form in ("lines", "gen", "tuple", "blines", "blines_nonl")
+        via = None if i % 3 == 0 else {"cls": PLAIN_CLASSES[i % len(PLAIN_CLASSES)], "style": ("pos", "kw", "kwseq")[(i // 3) % 3],
+                                        "use_apt_pkg": bool(i % 2), "strict": (None, True)[(i // 2) % 2]}
         keep = []
-        traces.append(record(lines, form, final_nl, keep=keep, only=only))
-        meta.append({"texts": [ln["text"] for ln in lines], "form": form, "final_nl": final_nl})
+        traces.append(record(lines, form, final_nl, keep=keep, only=only, via=via))
+        vstat["%s/%s" % ((via or {}).get("cls", "Deb822"), (via or {}).get("style", "kw"))] = vstat.get(
+            "%s/%s" % ((via or {}).get("cls", "Deb822"), (via or {}).get("style", "kw")), 0) + 1
+        meta.append({"texts": [ln["text"] for ln in lines], "form": form, "final_nl": final_nl, "via": via})
         # the objects of the previous document are still alive: they must still show what was recorded
         # for them (and what TLC validates below)
         if prev_keep is not None:
@@ -1459,6 +2003,7 @@ def run(ctx):
         "traces": {"max": tstat, "large_documents": ["%dx%dx%d" % d for d in bigdims],
                    "name_lengths": sorted(tsizes.used["name"] | bsizes.used["name"]),
                    "line_lengths": sorted(tsizes.used["line"] | bsizes.used["line"]),
+                   "entry_points": dict(sorted(vstat.items())),
                    "max_name_len": max((len(l["k"]) for t in traces for l in t["lines"]), default=0),
                    "max_line_len": max((len(x) for m in meta for x in m["texts"]), default=0)}}
     ctx.extra["traces_recorded"] = len(traces)
@@ -1471,7 +2016,7 @@ def run(ctx):
         at = info.get(i, 0)
         m = meta[i - 1]
         ctx.violation({"kind": "trace", "lines": [dict(l, text=x) for l, x in zip(traces[i - 1]["lines"], m["texts"])],
-                       "form": m["form"], "final_nl": m["final_nl"], "first_unexplained_line": at + 1},
+                       "form": m["form"], "final_nl": m["final_nl"], "via": m.get("via"), "first_unexplained_line": at + 1},
                       "reader not explained by Deb822Reader: after line %d (%s) of %s [%s] the real result is %s"
                       % (at + 1, repr(m["texts"][at] if at < len(m["texts"]) else None)[:300], repr(m["texts"])[:1200], m["form"],
                          repr(traces[i - 1]["obs"][at] if at < len(traces[i - 1]["obs"]) else None)[:1500]))
@@ -1494,6 +2039,8 @@ def run(ctx):
 
 
 def replay(ctx, case):
+    import warnings
+    warnings.filterwarnings("ignore", message="Parsing of Deb822 data with python3-apt")
     ctx.import_repo()
     if case["kind"] == "doc":
         job = case["job"]
@@ -1505,7 +2052,7 @@ def replay(ctx, case):
         return exec_calls(case["steps"], case["texts"])
     if case["kind"] == "trace":
         lines = case["lines"]
-        t = record(lines, case["form"], case.get("final_nl", True))
+        t = record(lines, case["form"], case.get("final_nl", True), via=case.get("via"))
         rejected, info = validate(ctx, [t], with_controls=False)
         if rejected:
             return "document still not explained by the specification after line %d" % (info.get(1, 0) + 1)
